@@ -25,6 +25,7 @@ CONFIGS = {
     'Ord+PartialOrd@P': (['Ord', 'PartialOrd'], 'PartialOrd', ['PartialEq', 'Eq'], [('Ord', 'Ord', 'deleg'), ('PartialOrd', 'Ord', 'deleg')]),
     'Hash': (['Hash'], 'Hash', [], [('Hash', 'Hash', 'deleg')]),
     'Default': (['Default'], 'Default', [], [('Default', 'Default', 'deleg')]),
+    'Default@V0': (['Default'], 'Default', [], [('Default', 'Default', 'deleg')]),      # enums only: the default variant is the tuple variant
     'Into': (['Into(u64)'], 'Into', [], [('Into', 'Into', 'into')]),
     'Into2': (['Into(u64)', 'Into(u32)'], 'Into', [], [('Into', 'Into', 'into'), ('Into32', 'Into32', 'into32')]),
 }
@@ -121,8 +122,11 @@ def build(cfg, kind, stat, forms, cond=False, wc=False, foreign=False):
         flip0 = '#[educe(Debug(named_field = true))] ' if cfg == 'Debug/flip' else ''
         flip1 = '    #[educe(Debug(named_field = false, name = false))]\n' if cfg == 'Debug/flip' else ''
         dm = dm + flip1
-        src += 'pub enum Ty%s {\n    %sV0(%s),\n%s    V1 { %s },\n%s}\n' % (gdecl + wherec, flip0, ', '.join(ftypes[k] for k in range(n)) if cfg in ('Default',) else ', '.join(fl(k, False) for k in range(n)),
-                                                                         dm, ', '.join(fl(k, True) for k in range(n)), unit)
+        if cfg == 'Default@V0':
+            src += 'pub enum Ty%s {\n    #[educe(Default)] V0(%s),\n    V1 { %s },\n    V2,\n}\n' % (gdecl + wherec, ', '.join(fl(k, False) for k in range(n)), ', '.join('f%d: %s' % (k, ftypes[k]) for k in range(n)))
+        else:
+            src += 'pub enum Ty%s {\n    %sV0(%s),\n%s    V1 { %s },\n%s}\n' % (gdecl + wherec, flip0, ', '.join(ftypes[k] for k in range(n)) if cfg in ('Default',) else ', '.join(fl(k, False) for k in range(n)),
+                                                                             dm, ', '.join(fl(k, True) for k in range(n)), unit)
     else:
         md = lambda t: 'std::mem::ManuallyDrop<%s>' % t
         dmark = '#[educe(Default)] ' if cfg == 'Default' else ''
@@ -187,7 +191,7 @@ def build(cfg, kind, stat, forms, cond=False, wc=False, foreign=False):
 def generate(tier):
     cases = []
     for cfg in CONFIGS:
-        kinds = ['struct', 'tuple', 'enum'] if cfg != 'Debug/flip' else ['enum']
+        kinds = ['struct', 'tuple', 'enum'] if cfg not in ('Debug/flip', 'Default@V0') else ['enum']
         if cfg in ('Copy+Clone', 'Copy', 'Eq', 'Default'):
             kinds.append('union')
         for kind in kinds:
@@ -214,7 +218,7 @@ def generate(tier):
                         cases.append(c)
     # the same with the bounds in the type's own where-clause and projection-typed fields (`A::Out` under `where A: Pr`)
     for cfg in CONFIGS:
-        kinds = ['struct', 'tuple', 'enum'] if cfg != 'Debug/flip' else ['enum']
+        kinds = ['struct', 'tuple', 'enum'] if cfg not in ('Debug/flip', 'Default@V0') else ['enum']
         for kind in kinds:
             st = statuses(cfg)
             plans = [(s, (f0,)) for f0 in (0, 1, 3, 6) for s in st]
@@ -227,7 +231,7 @@ def generate(tier):
                     cases.append(c)
     # parameter lists whose impl-generics and type-generics differ (inline trait bounds, const parameters), and other tools' attributes around the field attributes
     for cfg in CONFIGS:
-        kinds = ['struct', 'tuple', 'enum'] if cfg != 'Debug/flip' else ['enum']
+        kinds = ['struct', 'tuple', 'enum'] if cfg not in ('Debug/flip', 'Default@V0') else ['enum']
         for kind in kinds:
             st = statuses(cfg)
             plans = [(s, (f0,)) for f0 in (0, 1, 3) for s in st] + [(''.join(s), (0, 3)) for s in itertools.product(st, repeat=2)]
